@@ -9,6 +9,7 @@ import (
 	dbm "github.com/tendermint/tm-db"
 
 	"verif/internal/ev"
+	"verif/internal/faultdb"
 	"verif/internal/rng"
 )
 
@@ -121,13 +122,31 @@ func runC04History(r *rand.Rand, onDisk bool, h *c01hist) (key, what string) {
 			}
 			h.counts["loadversion_opens"]++
 		}
+		// a node reopened at a retained (older) version that applies the same later blocks again must arrive at the same
+		// commit ids as the node that never stopped (on a copy of the DB: later versions are still on disk underneath)
+		if !onDisk && v < ref.Latest && (v%4 == 1 || v == ref.Latest-1) {
+			n, err := openMS(faultdb.CloneMem(db), cfg, v)
+			if err != nil {
+				return "loadversion-error", fmt.Sprintf("LoadVersion(%d) on a DB copy: %v", v, err)
+			}
+			for j := v; j < ref.Latest; j++ {
+				var cid types.CommitID
+				if p, st := ev.Try(func() { cid = n.apply(blocks[j]) }); p != nil {
+					return "replay-from-retained-version/panic", fmt.Sprintf("reopened at version %d, re-applying block %d panicked: %v\n%s", v, j+1, p, st)
+				}
+				if !cidEq(cid, ref.CID[j+1]) {
+					return "replay-from-retained-version/commitid", fmt.Sprintf("reopened at retained version %d (latest on disk %d) and re-applied the same blocks: block %d commits %d:%X, the node that never stopped committed %d:%X", v, ref.Latest, j+1, cid.Version, cid.Hash, ref.CID[j+1].Version, ref.CID[j+1].Hash)
+				}
+			}
+			h.counts["replays_from_retained_version"]++
+		}
 	}
 	return "", ""
 }
 
 func checkC04(r *ev.Run) {
 	n := r.N(2000, 20000)
-	r.Rule("history = rootmulti store with 1-4 IAVL substores (+transient), 5-40 generated blocks (sets/deletes over 8 hot keys per store, some applied through CacheMultiStore.Write, some empty); a never-reopened replica with different node-cache size and reversed mount order must report the same CommitID at every block; the node is torn down and rebuilt over the same DB (new store objects, cold caches) at random blocks and at the end every version is read back lazily and via LoadVersion in a new store (LastCommitID, per-substore CommitID, full contents, point reads). 1 in 12 histories runs on an on-disk goleveldb closed and reopened. Non-trivial = at least one mid-history reopen and >= 5 commits; distinct = digest of block script.")
+	r.Rule("history = rootmulti store with 1-4 IAVL substores (+transient), 5-40 generated blocks (sets/deletes over 8 hot keys per store, some applied through CacheMultiStore.Write, some empty); a never-reopened replica with different node-cache size and reversed mount order must report the same CommitID at every block; the node is torn down and rebuilt over the same DB (new store objects, cold caches) at random blocks and at the end every version is read back lazily and via LoadVersion in a new store (LastCommitID, per-substore CommitID, full contents, point reads); from every fourth retained version (and the last but one) a new store over a copy of the DB re-applies the same later blocks and must commit the ids the never-stopped node committed. 1 in 12 histories runs on an on-disk goleveldb closed and reopened. Non-trivial = at least one mid-history reopen and >= 5 commits; distinct = digest of block script.")
 	r.Assume("goleveldb variant closes and reopens the DB inside one process (files on disk are re-read; OS page cache is trusted)")
 	ev.ForEach(n, workers(), func(i int) {
 		if r.Only != "" && r.Only != "*" && r.Only != fmt.Sprint(i) {
